@@ -533,6 +533,8 @@ class Explorer:
             inner = self.known_variant(v[2][0], cons)
             if inner is not None:
                 return _REL[ADAPTERS[v[1]][0]](inner)
+        if v[0] == "call" and v[1] == "core::option::Option::take" and v[2]:
+            return self.known_variant(v[2][0], cons)        # what take() hands back is what the slot held
         if v[0] == "call" and v[1].endswith(BRANCH):
             if v[2] and v[2][0][0] == "errconv":
                 return {1}      # a value built by from_residual (an inner `?` that failed) is an error: Try::branch answers Break
